@@ -271,7 +271,9 @@ def goto(reference_beats, estimated_beats, goto_threshold=0.35, goto_mu=0.2,
     if sigma > 0 and var == sigma * sigma:
         mg.value = 0.0                # square root tie: never reproducible
     else:
-        mg.see(Fraction(std), sigma)
+        # the library's standard deviation is a float sum followed by a square
+        # root: even an exact-looking tie (std == sigma) is never reproducible
+        mg.see(Fraction(std), sigma, trusted=False)
     ok = sigma > 0 and var < sigma * sigma
     return (1.0 if ok else 0.0), mg.value
 
